@@ -169,6 +169,25 @@ def run_history(ir, spec, hist, lifted=True):
     """
     prefix = PREFIXES[hist["prefix"]]
     logs = {k: [] for k in ("M", "C", "FM", "FC")}
+    if hist.get("late"):
+        # late duplicate: every operation is applied to the original first, THEN the duplicate is taken; the duplicate must behave like
+        # a freshly built model put through the same operations (and so must the original, which duplication may not disturb)
+        M, FM, FC = fresh(ir, spec), fresh(ir, spec), fresh(ir, spec)
+        for op in list(prefix) + [tuple(op) for _, op in hist["ops"]]:
+            apply_op(M, spec, op, logs["M"])
+            apply_op(FM, spec, op, logs["FM"])
+            apply_op(FC, spec, op, logs["FC"])
+        try:
+            C = duplicate(ir, M, hist["how"])
+        except Exception as exc:
+            raise DuplicateFailed(f"duplicating the model by {hist['how']} after {[op for _, op in hist['ops']]} raises {type(exc).__name__}: {str(exc)[:160]}")
+        logs["C"] = list(logs["M"])
+        if hist["how"] == "portable":
+            # the portable form carries values, not the solution: recompute on both sides
+            for op in (("steady",), ("solve",)):
+                apply_op(C, spec, op, logs["C"])
+                apply_op(FC, spec, op, logs["FC"])
+        return dict(M=M, C=C, FM=FM, FC=FC), logs
     M = fresh(ir, spec)
     for op in prefix:
         apply_op(M, spec, op, logs["M"])
@@ -435,7 +454,7 @@ def compare(run, got, want, side):
 
 def hist_key(spec, hist):
     ops = "+".join(f"{t}.{'_'.join(str(x) for x in op)}" for t, op in hist["ops"]) or "none"
-    return f"{spec.name}:{hist['how']}:{hist['prefix']}:{ops}"
+    return f"{spec.name}:{hist['how']}:{hist['prefix']}:{ops}" + (":then-duplicate" if hist.get("late") else "")
 
 
 def check_history(args):
@@ -528,6 +547,13 @@ def histories(spec, tier):
                     if L == 3 and not any(op[0] in ("assign", "assign_all", "assign_variants", "assign_level") for _, op in seq):
                         continue
                     out.append(dict(how=how, prefix=prefix, ops=tagged(seq)))
+    # late duplicates: operations on the original first, duplicate afterwards
+    for how in hows:
+        for L in ((1, 2) if (tier == "thorough" or how in ("copy", "pickle", "portable")) else (1,)):
+            for seq in itertools.product([("M", op) for op in alpha], repeat=L):
+                if how == "portable" and any(op[0] == "tolerance" for _, op in seq):
+                    continue      # tolerance overrides are not among the things the portable form is stated to carry
+                out.append(dict(how=how, prefix="solved", ops=tagged(seq), late=True))
     return out
 
 
